@@ -80,6 +80,8 @@ fn obs_of(o: &J) -> Observation {
             _ => jf(o, "v", 0.0),
         }),
         "r" => Observation::Repeated { total: jf(o, "total", 0.0), occurrences: ju(o, "n", 0) },
+        // fault: user code inside the entry panics while the formatter is in the middle of a metric
+        "panic" => std::panic::panic_any("harness: the value's observation iterator panics"),
         _ => Observation::Unsigned(ju(o, "v", 0)),
     }
 }
@@ -221,7 +223,8 @@ pub fn gen_entry(rng: &mut Rng, cfg: &J, allow_defect: bool, allow_huge: bool) -
         let nobs = rng.below(4);
         let mut obs = vec![];
         for _ in 0..nobs {
-            obs.push(match rng.below(8) {
+            obs.push(match if allow_defect && rng.chance(0.02) { 99 } else { rng.below(8) } {
+                99 => json!({"t":"panic"}),
                 0 => json!({"t":"f","v": rng.f64() * 1e6}),
                 1 => json!({"t":"f","special": *rng.pick(&["nan", "inf", "ninf"])}),
                 2 => json!({"t":"r","total": rng.f64() * 100.0, "n": rng.below(5)}),
@@ -1409,7 +1412,20 @@ impl Scenario for EmfHistory {
                 if ja(spec, "items").iter().any(|i| js(i, "k", "") == "huge") {
                     r.probe("multi_megabyte_entry", 1);
                 }
-                (long_lived.call(&e, &mut w, sampled), fresh.call(&e, &mut fw, sampled))
+                if spec.to_string().contains("\"t\":\"panic\"") {
+                    // the entry's own code panics half-way through (caught by the caller, as a
+                    // task boundary would): the formatter must be as good as new afterwards
+                    r.fault("panic_in_user_value", 1);
+                    let a = std::panic::catch_unwind(std::panic::AssertUnwindSafe(|| long_lived.call(&e, &mut w, sampled)));
+                    let b = std::panic::catch_unwind(std::panic::AssertUnwindSafe(|| fresh.call(&e, &mut fw, sampled)));
+                    if a.is_err() || b.is_err() {
+                        classes.push("panicked".into());
+                        continue;
+                    }
+                    (a.unwrap(), b.unwrap())
+                } else {
+                    (long_lived.call(&e, &mut w, sampled), fresh.call(&e, &mut fw, sampled))
+                }
             };
             for (k, v) in &w.fired {
                 r.fault(k, *v);
